@@ -23,6 +23,9 @@ def run(ctx):
             jobs.append(Job("c05.py", "h_scopes", {"nest": nest, "nh": nh, "nb": nb}, T, 30, tag=f"nest={nest},headers={nh},blocks={nb}", meta={"twin": nh == 2 and nb == 2}))
         jobs.append(Job("c05.py", "h_scopes", {"nest": nest, "nh": 2, "nb": 2, "own": True, "ntok": 8 if ctx.quick() else 10}, T, 30, tag=f"nest={nest},own-tokens", meta={"twin": False}))
     jobs.append(Job("c05.py", "h_loc", {}, T, 30, tag="k<=3"))
+    # positions are relative to the FILE: the file-level entry point must report what analysing the file's text reports (leading blank lines, BOM-less, CRLF)
+    for e1 in range(7):
+        jobs.append(Job("c06.py", "h_analyze_history", {"which": "history", "fix_n": 1, "fix_e1": e1}, T, 60, tag=f"_analyze_file == analysis of the file text, ext #{e1}", meta={"sigtag": "file-level", "twin": e1 == 0}))
     # line numbers are only "within the file" if lexing maps offsets to lines faithfully: the unit contracts of the position bookkeeping (shared with C16)
     jobs.append(Job("c16.py", "h_newlines", {}, T, 30, tag="newline offsets / location_to_index, |code|<=4"))
     for K in (1, 2):
@@ -30,5 +33,5 @@ def run(ctx):
     # quick: Python only (indentation blocks are the delicate case; brace languages are covered by the mutants and by thorough) (C, C++ and C# share all pairing code; TypeScript shares JavaScript's arrow pattern); thorough: all seven, N=3
     plan = {l: 2 for l in ("Python",)} if ctx.quick() else {l: 3 for l in ("Python", "C", "JavaScript", "Java", "TypeScript", "Cpp", "CSharp")}
     jobs += soup_common.soup_jobs(ctx, "wellformed", plan, framed=True, tolerate=AMBIG)
-    jobs += soup_common.mutation_jobs(ctx, ["two", "stmt-mix", "nested-middle", "class-methods"] if ctx.quick() else None, tolerate=AMBIG)
+    jobs += soup_common.mutation_jobs(ctx, ["two", "stmt-mix", "nested-middle", "nested-two", "class-methods"] if ctx.quick() else None, tolerate=AMBIG)
     ctx.run_xh(jobs)
